@@ -6,6 +6,8 @@ package query
 
 import (
 	"fmt"
+	"os"
+	"strconv"
 	"math/rand/v2"
 	"slices"
 	"strings"
@@ -26,6 +28,8 @@ type vfStmt struct {
 	newRows  []vfRow // table content after the statement if it succeeds
 	open     bool    // selection depends on an open comparison
 	note     string
+	projCols []string // update/delete through a project: the projected columns
+	movesKey bool     // update that changes key values of selected rows
 }
 
 func vfKeyDups(t *vfTable, rows []vfRow) bool {
@@ -256,6 +260,9 @@ func (g *vfC24Gen) update(t *vfTable) *vfStmt {
 		parts = append(parts, c.name+" = "+e.text())
 	}
 	st := &vfStmt{kind: "update", target: t, text: "update " + n.text() + " set " + strings.Join(parts, ", ")}
+	if n.op == "project" {
+		st.projCols = n.cols
+	}
 	rel, openV, _ := vfModelResult(g.d, n, false)
 	_, openR, _ := vfModelResult(g.d, n, true)
 	ev := vfEval{}
@@ -300,9 +307,12 @@ func (g *vfC24Gen) update(t *vfTable) *vfStmt {
 	}
 	if len(changedKey) > 0 {
 		st.note = "changes key values"
+		st.movesKey = true
 	}
 	return st
 }
+
+var vfC24Debug bool
 
 type vfC24Witness struct {
 	Seed, Shard, DB, Stmt int
@@ -326,6 +336,22 @@ func TestVerifC24(t *testing.T) {
 	th := &Thread{}
 	n := vk.N(1500, 80000)
 	const perDB = 30
+	if dc := os.Getenv("VERIF_DEBUG_CASE"); dc != "" { // developer aid: replay one database up to a statement
+		target, _ := strconv.Atoi(dc)
+		dbi := target / perDB
+		d := vfGenDB(vk.RandFor(24, dbi), 25)
+		for si := dbi * perDB; si <= target; si++ {
+			if si == target {
+				d.desc = nil
+				for _, l := range d.describe() {
+					fmt.Println(l)
+				}
+				vfC24Debug = true
+			}
+			vfC24Case(rep, d, dbi, si, th)
+		}
+		return
+	}
 	for si := 0; si < n; {
 		dbi := si / perDB
 		rep.Case("db %d (generating)", dbi)
@@ -370,6 +396,18 @@ func vfC24Case(rep *vk.Report, d *vfDB, dbi, si int, th *Thread) {
 		return
 	}
 	rep.Case("db %d stmt %d: %s", dbi, si, st.text)
+	if vfC24Debug {
+		fmt.Println("STATEMENT:", st.text, "\n expect count", st.count, "mustFail", st.mustFail, "mayFail", st.mayFail, "open", st.open)
+		for _, l := range vfRowsText(st.newRows, vfColNames(st.target.cols), 100) {
+			fmt.Println("   want", l)
+		}
+		defer func() {
+			res, _, _, _ := vfExec(d, st.target.name, vfCfg{name: "base", mode: ReadMode, setup: "setup", dir: Next}, th)
+			for _, l := range vfRowsText(res.rows, res.cols, 100) {
+				fmt.Println("   have", l)
+			}
+		}()
+	}
 	if st.open {
 		rep.Count("open_skipped", 1)
 		return
@@ -407,7 +445,11 @@ func vfC24Case(rep *vk.Report, d *vfDB, dbi, si int, th *Thread) {
 		default:
 			w := wit("statement failed although its result is valid", fmt.Sprintf("%d rows", st.count), msg)
 			w.Stack = vk.Trunc(stack, 2500)
-			rep.Violate("C24/unexpected-error/"+st.kind+"/"+vfPanicSite(p, stack), key, w)
+			cl := "C24/unexpected-error/" + st.kind + "/" + vfPanicSite(p, stack)
+			if lbl := vfC24Diagnose(st, nil, nil); lbl != "" {
+				cl = "C24/unexpected-error/" + st.kind + "/" + lbl
+			}
+			rep.Violate(cl, key, w)
 		}
 		// a failed statement must leave the table as it was
 		vfC24Compare(rep, d, st, st.target.rows, key, "after refused statement", wit, th)
@@ -426,7 +468,11 @@ func vfC24Case(rep *vk.Report, d *vfDB, dbi, si int, th *Thread) {
 	rep.Count("succeeded", 1)
 	rep.Count("rows_affected", st.count)
 	if got != st.count {
-		rep.Violate("C24/count-differs/"+st.kind, key, wit("reported count differs from the number of selected rows"+vfNoteSuffix(st), st.count, got))
+		cl := "C24/count-differs/" + st.kind
+		if lbl := vfC24Diagnose(st, nil, nil); lbl != "" && (lbl != "update-revisits-rows-moved-in-iteration-index" || got > st.count) {
+			cl += "/" + lbl
+		}
+		rep.Violate(cl, key, wit("reported count differs from the number of selected rows"+vfNoteSuffix(st), st.count, got))
 	}
 	if vfC24Compare(rep, d, st, st.newRows, key, "after statement"+vfNoteSuffix(st), wit, th) {
 		st.target.rows = st.newRows
@@ -470,6 +516,8 @@ func vfC24Compare(rep *vk.Report, d *vfDB, st *vfStmt, want []vfRow, key, note s
 		cl := "C24/table-differs/" + st.kind
 		if strings.HasPrefix(note, "after refused") {
 			cl = "C24/refused-statement-changed-table/" + st.kind
+		} else if lbl := vfC24Diagnose(st, want, res.rows); lbl != "" {
+			cl += "/" + lbl
 		}
 		rep.Violate(cl, key, wit(note+": table content differs from the model", map[string]any{"only_in_model": vfTruncList(onlyM, 10), "rows": len(want)},
 			map[string]any{"only_in_table": vfTruncList(onlyE, 10), "rows": len(res.rows)}))
@@ -489,4 +537,47 @@ func vfC24Resync(d *vfDB, t *vfTable, th *Thread) {
 func (d *vfDB) dbHashNow() uint64 {
 	d.hash = 0
 	return d.dbHash()
+}
+
+// vfC24Diagnose recognises the analysed defects (known_findings.d/C24.jsonl) so they get their own class.
+func vfC24Diagnose(st *vfStmt, want, got []vfRow) string {
+	if st.kind != "update" {
+		return ""
+	}
+	if st.projCols != nil {
+		if want == nil {
+			return "update-through-project-blanks-other-columns"
+		}
+		// the table equals the model once the columns outside the project are blanked in updated rows
+		cols := vfColNames(st.target.cols)
+		have := map[string]int{}
+		for _, r := range got {
+			have[vfTupleKey(r, cols)]++
+		}
+		ok := true
+		for _, r := range want {
+			if have[vfTupleKey(r, cols)] > 0 {
+				have[vfTupleKey(r, cols)]--
+				continue
+			}
+			b := vfCloneRow(r)
+			for _, c := range cols {
+				if !slices.Contains(st.projCols, c) {
+					b[c] = EmptyStr
+				}
+			}
+			if have[vfTupleKey(b, cols)] > 0 {
+				have[vfTupleKey(b, cols)]--
+			} else {
+				ok = false
+			}
+		}
+		if ok {
+			return "update-through-project-blanks-other-columns"
+		}
+	}
+	if st.movesKey {
+		return "update-revisits-rows-moved-in-iteration-index"
+	}
+	return ""
 }
